@@ -425,3 +425,98 @@ Definition svg_m_doc (palette : list rgb) (fg bg : colour) (background : bool) (
   svg_doc (mkSvgTerm palette fg bg background) input.
 
 Definition svg_m_print (width_px : N) (wf : list N -> N) (d : svg_document) : list N := svg_print width_px wf d.
+
+(* ---- adapters for the function translator (tools/gen_fn_svg.py -> Generated/SvgFn.v) ----
+   Definitions only; nothing above changes meaning.  The translated code sees an
+   anstyle::Color as the [color] of Spec/Lossy (the Rust enum with its payloads as they
+   are: it is what color_name / rgb_value match on); a Style keeps the [colour] of
+   Spec/Sgr in its slots, so the accessors convert. *)
+Definition svg_of_color (c : color) : colour :=
+  match c with
+  | Ansi a => CAnsi a
+  | Ansi256 i => CIdx i
+  | Rgb (r, g, b) => CRgb r g b
+  end.
+
+(* Style::get_{fg,bg,underline}_color / Style::{fg,bg}_color *)
+Definition svg_get_fg (s : sstyle) : option color := option_map svg_to_color (s_fg s).
+Definition svg_get_bg (s : sstyle) : option color := option_map svg_to_color (s_bg s).
+Definition svg_get_ul (s : sstyle) : option color := option_map svg_to_color (s_ul s).
+Definition svg_set_fg (s : sstyle) (c : option color) : sstyle := set_fg s (option_map svg_of_color c).
+Definition svg_set_bg (s : sstyle) (c : option color) : sstyle := set_bg s (option_map svg_of_color c).
+
+(* what the hand model leaves to its oracle arguments: unicode_width (UnicodeWidthStr::width),
+   the f64 expression `(x as f64 * 8.4).ceil() as usize` (a function of x), and the one field of
+   Term the record above does not carry (min_width_px: it enters the width attribute only) *)
+Record svg_oracle : Type := mkSvgOracle {
+  svg_o_uw : list N -> N;
+  svg_o_ceil84 : N -> N;
+  svg_o_min_width : N
+}.
+
+(* the fields of `struct Term` *)
+Definition svg_t_fg_c (t : svg_term) : color := svg_to_color (svg_t_fg t).
+Definition svg_t_bg_c (t : svg_term) : color := svg_to_color (svg_t_bg t).
+Definition svg_t_font_family (t : svg_term) : list N := svg_font_family.     (* no setter: Term::new's value *)
+Definition svg_t_padding (t : svg_term) : N := svg_padding.                  (* no setter: Term::new's value *)
+Definition svg_t_min_width (o : svg_oracle) (t : svg_term) : N := svg_o_min_width o.
+
+(* str::split_once(char) *)
+Fixpoint svg_split_once (c : N) (s : list N) : option (list N * list N) :=
+  match s with
+  | [] => None
+  | x :: r => if x =? c then Some ([], r)
+              else match svg_split_once c r with
+                   | Some (a, b) => Some (x :: a, b)
+                   | None => None
+                   end
+  end.
+
+(* str::strip_suffix(char) *)
+Fixpoint svg_strip_suffix (s : list N) (c : N) : option (list N) :=
+  match s with
+  | [] => None
+  | x :: r => match r with
+              | [] => if x =? c then Some [] else None
+              | _ :: _ => match svg_strip_suffix r c with Some r' => Some (x :: r') | None => None end
+              end
+  end.
+
+(* slice::last_mut: the element borrowed, and the vector with that element replaced *)
+Fixpoint svg_last {A} (l : list A) : option A :=
+  match l with
+  | [] => None
+  | x :: r => match r with [] => Some x | _ :: _ => svg_last r end
+  end.
+Fixpoint svg_set_last {A} (l : list A) (v : A) : list A :=
+  match l with
+  | [] => []
+  | x :: r => match r with [] => [v] | _ :: _ => x :: svg_set_last r v end
+  end.
+
+(* str::replace(char, &str) / str::repeat / str::starts_with / [&str]::join *)
+Definition svg_str_replace (c : N) (by_ : list N) (t : list N) : list N :=
+  flat_map (fun x => if x =? c then by_ else [x]) t.
+Definition svg_str_repeat (s : list N) (n : N) : list N := List.concat (repeat s (N.to_nat n)).
+Definition svg_str_starts_with (t p : list N) : bool := svg_starts p t.
+
+(* Iterator::sum / Iterator::max over usize (max: None when empty) *)
+Definition svg_sum (l : list N) : N := fold_left N.add l 0.
+Definition svg_max_opt (l : list N) : option N :=
+  match l with
+  | [] => None
+  | x :: r => Some (fold_left N.max r x)
+  end.
+
+(* BTreeMap<String, String>::insert as the translated code calls it (map first) *)
+Definition svg_btree_insert (m : list (list N * list N)) (k v : list N) : list (list N * list N) := svg_map_insert k v m.
+
+(* the width arithmetic of render_svg over the oracle: `max_width` (the widest line, fragment widths summed),
+   the f64 product, std::cmp::max with min_width_px, the padding on both sides.  This is the value the
+   translated code hands to [svg_print] as its [width_px] argument. *)
+Definition svg_width_px (o : svg_oracle) (styled_lines : list (list (sstyle * list N))) : N :=
+  let max_width := match svg_max_opt (map (fun l => svg_sum (map (fun '(_, tx) => svg_o_uw o tx) l)) styled_lines) with
+                   | Some m => m
+                   | None => 0
+                   end in
+  N.max (svg_o_ceil84 o max_width) (svg_o_min_width o) + svg_padding * 2.
